@@ -10,8 +10,8 @@ import (
 
 	"github.com/meshplus/bitxhub-kit/storage"
 	"github.com/meshplus/bitxhub-kit/types"
-	ethledger "github.com/meshplus/eth-kit/ledger"
 	"github.com/meshplus/bitxhub/verifhook"
+	ethledger "github.com/meshplus/eth-kit/ledger"
 	"pgregory.net/rapid"
 
 	"verifharness/sim"
@@ -80,9 +80,9 @@ type c13Run struct {
 	nestedRevert    bool
 	reopens, blocks int
 	// a flushed block whose Commit has not been issued yet (reads in between are served by the account cache)
-	pendingAccounts map[string]ethledger.IAccount
-	pendingRoot     *types.Hash
-	pendingHeight   uint64
+	pendingAccounts            map[string]ethledger.IAccount
+	pendingRoot                *types.Hash
+	pendingHeight              uint64
 	readsBetweenFlushAndCommit int
 }
 
